@@ -5,7 +5,11 @@
 // and an Option for the (unexported) streaming configuration.
 package cesium
 
-import "context"
+import (
+	"context"
+
+	xfs "github.com/synnaxlabs/x/io/fs"
+)
 
 // VerifGarbageCollect runs one garbage-collection pass synchronously.
 func (db *DB) VerifGarbageCollect(ctx context.Context) error {
@@ -16,3 +20,7 @@ func (db *DB) VerifGarbageCollect(ctx context.Context) error {
 func WithVerifStreamingConfig(cfg DBStreamingConfig) Option {
 	return func(o *options) { o.streamingConfig = cfg }
 }
+
+// VerifFS returns the file system the database stores its channels in (already rooted at
+// the database directory), so that a check can reopen an engine on the same storage.
+func (db *DB) VerifFS() xfs.FS { return db.fs }
